@@ -16,6 +16,7 @@ class T(models.Model):
     dd = models.DateField(null=True)
     # a fixed-point column: literals may carry more digits than the column keeps
     m = models.DecimalField(max_digits=5, decimal_places=2, null=True)
+    iv = models.DurationField(null=True)
 
     class Meta:
         app_label = "vp_djapp"
